@@ -398,6 +398,33 @@ func enumC03(tier string, shard, nshards int, yield func(C03Case) bool) (bool, s
 			}
 		}
 	}
+	// a throttling store (rejects any call that arrives while more than 40 are in flight): whether an overflow
+	// happens at all depends on the schedule, so this variant is repeated with different numbers of held writes
+	for _, bf := range []uint{2, 4} {
+		for _, n := range sizes[:2] {
+			for _, hold := range []int{40, 41, 43, 45, 50, 60, 70} {
+				reps := 3
+				if hold <= 41 {
+					reps = 14 // the overflow needs the dispatcher to outrun the last worker: many tries
+				}
+				for rep := 0; rep < reps; rep++ {
+					i++
+					if i%nshards != shard {
+						continue
+					}
+					fates := make([]env.Fate, 80)
+					for j := 0; j < hold; j++ {
+						fates[j].Straggle = true
+						fates[j].Delay = (j + rep) % 3
+					}
+					cfg := core.Config{BF: bf, Format: ref.FormatBinary, Key: core.KInt, Val: core.VInt, Cache: "none", Marshaler: "json"}
+					if !yield(C03Case{Big: n + rep, Cfg: cfg, Attempts: []C03Attempt{{Fates: fates, FailAbove: 40}}}) {
+						return false, ""
+					}
+				}
+			}
+		}
+	}
 	return false, "saturating flushes: trees of 150-400 (thorough 1500) int keys at bf 2 and 4 (50-400 dirty nodes), the first 40 or 45 arriving Store calls held in flight, a failure at arrival 40/41/44/60, none, or a store that rejects any call arriving while more than 40 are in flight; then a fault-free retry"
 }
 
